@@ -94,17 +94,17 @@ def matrix(tier, focus):
         for p in PLANS:
             for j, w in enumerate([1, 2, 4, 8]):
                 runs.append(SRun(p, "a", driver="scheddrive", workers=w, mutators=1 + j % 3,
-                                 programs=12, ops=150, seed_off=j))
-                if p != "NoGC":
+                                 programs=8, ops=120, seed_off=j))
+                if p != "NoGC" and w in (2, 8):
                     runs.append(SRun(p, "small", driver="scheddrive", workers=w, mutators=2,
-                                     programs=10, ops=150, heap=6, seed_off=10 + j))
+                                     programs=8, ops=120, heap=6, seed_off=10 + j))
             if p != "NoGC":
                 # the whole-system driver too (LOS, pinning roots, bind/destroy of mutators, walker)
-                runs.append(SRun(p, "gcd", workers=3, mutators=2, programs=8, ops=150, seed_off=29,
+                runs.append(SRun(p, "gcd", workers=3, mutators=2, programs=6, ops=120, seed_off=29,
                                  extra=["--bind"]))
-                runs.append(SRun(p, "stress", workers=3, programs=6, ops=120,
-                                 opts="stress_factor=131072", seed_off=30))
-                runs.append(SRun(p, "rel", driver="scheddrive", workers=4, programs=12, ops=150,
+                runs.append(SRun(p, "stress", driver="scheddrive", workers=3, programs=5, ops=100,
+                                 opts="", seed_off=30, heap=5))
+                runs.append(SRun(p, "rel", driver="scheddrive", workers=4, programs=8, ops=120,
                                  seed_off=31, release=True))
     return runs
 
